@@ -47,6 +47,11 @@ type c12Plan struct {
 	Frames  []c12Frame `json:"frames"` // frame 0 is the root
 	RootGas uint64     `json:"root_gas"`
 	Cross   int        `json:"cross"` // >0: cross-transaction plan with this many transactions
+	// CrossKinds (address-only variant): per transaction "probe" (BALANCE/EXTCODESIZE/EXTCODEHASH of two
+	// addresses, no storage access), "create" (a contract that CREATEs a 1-byte contract), "deploy" (a
+	// deployment transaction). Empty: the storage/transient/log variant.
+	CrossKinds []string `json:"cross_kinds,omitempty"`
+	CrossArgs  []int    `json:"cross_args,omitempty"`
 }
 
 type c12 struct{}
@@ -65,7 +70,7 @@ func (c12) Budget(tier string) runner.Budget {
 
 func (c12) Describe() runner.Description {
 	return runner.Description{
-		Rule: "call-tree plans (85%): a seeded tree of 2..14 frames (depth <=5), each a deployed contract with effects (SSTORE of a per-frame slot, LOG1, 1-wei transfer to a sink, CREATE of a 1-byte contract), children called by CALL / CALLCODE / DELEGATECALL / STATICCALL with full or limited gas, and an ending (RETURN, REVERT, INVALID, infinite loop, stack fault); the root gas limit is ample or starved at a seeded point. Every successful frame returns the bitmap of frames of its subtree whose effects must persist; the transaction runs through the real block executor. Oracle: final storage of every frame slot, the ordered receipt logs, sink and contract balances, contract nonces and the set of created accounts equal exactly the effects of the frames in the returned bitmap (failed frames and their subtrees contribute nothing); no frame inside a STATICCALL subtree that has effects may report success and nothing from such a subtree may persist; a failed root leaves the whole state as before except fee/nonce of the sender. Cross-transaction plans (15%): 2-4 identical-shaped transactions in one block, each TLOADs a slot, records it, TSTOREs, touches storage and logs: every transaction must read transient storage empty, pay the same gas (no warm access list inherited), and its receipt must carry exactly its own log. distinct_nontrivial = distinct tree shapes (kinds, endings, effects, gas shares) with at least one failing inner frame.",
+		Rule: "call-tree plans (85%): a seeded tree of 2..14 frames (depth <=5), each a deployed contract with effects (SSTORE of a per-frame slot, LOG1, 1-wei transfer to a sink, CREATE of a 1-byte contract), children called by CALL / CALLCODE / DELEGATECALL / STATICCALL with full or limited gas, and an ending (RETURN, REVERT, INVALID, infinite loop, stack fault); the root gas limit is ample or starved at a seeded point. Every successful frame returns the bitmap of frames of its subtree whose effects must persist; the transaction runs through the real block executor. Oracle: final storage of every frame slot, the ordered receipt logs, sink and contract balances, contract nonces and the set of created accounts equal exactly the effects of the frames in the returned bitmap (failed frames and their subtrees contribute nothing); no frame inside a STATICCALL subtree that has effects may report success and nothing from such a subtree may persist; a failed root leaves the whole state as before except fee/nonce of the sender. Cross-transaction plans (15%): 2-4 identical-shaped transactions in one block, each TLOADs a slot, records it, TSTOREs, touches storage and logs: every transaction must read transient storage empty, pay the same gas (no warm access list inherited), and its receipt must carry exactly its own log; in half of them the transactions only warm ADDRESSES (account-access opcodes, an inner CREATE, a deployment transaction) and every probe transaction not first in the block must use exactly the gas it uses alone in a block on the same parent state. distinct_nontrivial = distinct tree shapes (kinds, endings, effects, gas shares) with at least one failing inner frame.",
 		Assumptions: []string{"frame effects use per-frame slots/topics so that every observed value is attributable to one frame", "SELFDESTRUCT only as the ending of a CALL-kind frame (its own contract), beneficiary a sink account"},
 		Real:        []string{"vm (EVM call/create/static handling, interpreter, gas)", "executor contract executor", "core/vmexecutor (Prepare, snapshot/revert, receipts)", "storage/account (journal, access list, transient storage, logs)"},
 		Stub:        []string{"ConsensusHelper", "network"},
@@ -78,6 +83,16 @@ func (c12) Gen(seed uint64, tier string) json.RawMessage {
 	p := c12Plan{Seed: seed, RootGas: 800000000}
 	if r.Chance(0.15) {
 		p.Cross = r.Range(2, 4)
+		if r.Chance(0.5) {
+			for i := 0; i < p.Cross; i++ {
+				k := []string{"probe", "probe", "create", "deploy"}[r.Intn(4)]
+				if i == p.Cross-1 {
+					k = "probe"
+				}
+				p.CrossKinds = append(p.CrossKinds, k)
+				p.CrossArgs = append(p.CrossArgs, r.Intn(64))
+			}
+		}
 		b, _ := json.Marshal(p)
 		return b
 	}
@@ -489,7 +504,137 @@ func createAddress(a common.Address, nonce uint64) common.Address {
 
 // ---- cross-transaction part ----
 
+// c12CrossAddr: transactions that warm ADDRESSES only (no storage slot): account-access opcodes, an
+// inner CREATE, a deployment transaction. Every probe transaction that is not first in the block must
+// cost exactly what it costs as the only transaction of a block on the same parent state: the probes
+// only read and pop, so their gas depends on nothing but the access list they start with.
+func c12CrossAddr(p *c12Plan, ec *execChain, st *simrt.Stats, log *simrt.Log) *simrt.Violation {
+	viol := func(ev int, clause, where, f string, a ...interface{}) *simrt.Violation {
+		return simrt.Violationf("C12", clause, where, ev, f, a...)
+	}
+	var probe evmasm.Code
+	probe.Push(0).Op(evmasm.CALLDATALOAD, evmasm.BALANCE, evmasm.POP)
+	probe.Push(32).Op(evmasm.CALLDATALOAD, evmasm.EXTCODESIZE, evmasm.POP)
+	probe.Push(0).Op(evmasm.CALLDATALOAD, 0x3f /* EXTCODEHASH */, evmasm.POP)
+	probe.Push(32).Op(evmasm.CALLDATALOAD, evmasm.BALANCE, evmasm.POP)
+	probe.Push(64).Op(evmasm.CALLDATALOAD).Push(0).Op(evmasm.MSTORE)
+	probe.Push(64).Op(evmasm.CALLDATALOAD).Push(32).Push(0).Op(evmasm.LOG1, evmasm.STOP)
+	var creator evmasm.Code
+	// CREATE(value 0, init code returning the 1-byte runtime 0x00) ; LOG1(topic = calldata word 2).
+	// (A contract with EMPTY runtime code is avoided on purpose: SetCode hashes it with Keccak-256 while
+	// the account layer's emptyCodeHash is SHA3-256, so a later EXTCODESIZE of it records a database error
+	// that makes the block's Commit fail - see DESIGN.md 13.3, observations.)
+	creator.PushBytes(c12Init).Push(0x60).Op(evmasm.MSTORE).Push(10).Push(0x60 + 22).Push(0).Op(evmasm.CREATE, evmasm.POP)
+	creator.Push(64).Op(evmasm.CALLDATALOAD).Push(32).Push(0).Op(evmasm.LOG1, evmasm.STOP)
+	paddr, caddr := c12Addr(510), c12Addr(511)
+	common.SetBlockHeight(ec.height)
+	s0 := ec.state()
+	s0.SetCode(paddr, probe)
+	s0.SetNonce(paddr, 1)
+	s0.SetCode(caddr, creator)
+	s0.SetNonce(caddr, 1)
+	root, err := s0.Commit(true)
+	if err == nil {
+		err = middleware.AccountDBManagerInstance.GetTrieDB().Commit(root, false)
+	}
+	if err != nil {
+		panic(runner.InfraError{Msg: "c12 deploy: " + err.Error()})
+	}
+	ec.root = root
+	// addresses a probe may look at: plain accounts, the creator, what the creator will create next,
+	// what a deployment by each sender will create, an address nobody uses
+	pre := ec.state()
+	var cands []common.Address
+	for i := 0; i < 4; i++ {
+		a := common.HexToAddress(node.Account(i))
+		cands = append(cands, a, createAddress(a, pre.GetNonce(a)))
+	}
+	cands = append(cands, caddr, createAddress(caddr, 1), createAddress(caddr, 2), paddr, c12Addr(999))
+	word := func(a common.Address) []byte { return common.BytesToHash(a.Bytes()).Bytes() }
+	var txs []*types.Transaction
+	for i, k := range p.CrossKinds {
+		arg := 0
+		if i < len(p.CrossArgs) {
+			arg = p.CrossArgs[i]
+		}
+		tag := common.BigToHash(big.NewInt(int64(i + 1))).Bytes()
+		sender := node.Account(i % 4)
+		var cd types.ContractData
+		target := ""
+		switch k {
+		case "probe":
+			in := append(append(word(cands[arg%len(cands)]), word(cands[(arg/len(cands)+arg)%len(cands)])...), tag...)
+			cd = types.ContractData{GasLimit: "60000000", TransferValue: "0", AbiData: "0x" + hex.EncodeToString(in)}
+			target = paddr.GetHexString()
+		case "create":
+			in := append(make([]byte, 64), tag...)
+			cd = types.ContractData{GasLimit: "60000000", TransferValue: "0", AbiData: "0x" + hex.EncodeToString(in)}
+			target = caddr.GetHexString()
+		default: // deployment transaction
+			cd = types.ContractData{GasLimit: "60000000", TransferValue: "0", AbiData: common.ToHex(evmasm.Deployer([]byte{evmasm.STOP, evmasm.STOP}))}
+		}
+		data, _ := json.Marshal(cd)
+		txs = append(txs, node.RawTx(types.TransactionTypeContract, sender, target, 0, string(data), "", fmt.Sprintf("c12a-%d-%d", p.Seed, i)))
+		st.Fault("same_block_second_tx")
+	}
+	// reference: each probe alone in a block on the same parent state (not committed)
+	ref := map[common.Hash]uint64{}
+	for i, t := range txs {
+		if p.CrossKinds[i] != "probe" {
+			continue
+		}
+		rcs, _, _, _ := ec.execBlock(ec.height+1, []*types.Transaction{t}, false)
+		if len(rcs) != 1 || rcs[0].Status != types.ReceiptStatusSuccessful {
+			panic(runner.InfraError{Msg: "c12 cross: reference probe did not run"})
+		}
+		ref[t.Hash] = rcs[0].GasUsed
+	}
+	receipts, executed, _, _ := ec.execBlock(ec.height+1, txs, true)
+	if len(receipts) != len(txs) {
+		return viol(0, "no-receipt", "cross", "%d receipts for %d transactions", len(receipts), len(txs))
+	}
+	idxOf := map[common.Hash]int{}
+	for i, t := range txs {
+		idxOf[t.Hash] = i
+	}
+	seq := ""
+	for k, rc := range receipts {
+		i := idxOf[executed[k].Hash]
+		seq += p.CrossKinds[i][:1]
+		if rc.Status != types.ReceiptStatusSuccessful {
+			return viol(k, "cross-tx-failed", "cross", "transaction %d (%s) failed: %s", i, p.CrossKinds[i], rc.Msg)
+		}
+		if p.CrossKinds[i] != "deploy" {
+			if len(rc.Logs) != 1 || len(rc.Logs[0].Topics) != 1 || rc.Logs[0].Topics[0] != common.BigToHash(big.NewInt(int64(i+1))) {
+				return viol(k, "receipt-logs-wrong", "cross-tx", "receipt of transaction %d carries %d logs (expected exactly its own)", i, len(rc.Logs))
+			}
+		} else if len(rc.Logs) != 0 {
+			return viol(k, "receipt-logs-wrong", "cross-tx", "receipt of deployment transaction %d carries %d logs (it emits none)", i, len(rc.Logs))
+		}
+		log.Add("cross(addr) tx %d kind=%s pos %d gas=%d ref=%d", i, p.CrossKinds[i], k, rc.GasUsed, ref[executed[k].Hash])
+		if want, ok := ref[executed[k].Hash]; ok && rc.GasUsed != want {
+			return viol(k, "access-list-leaked", "address-warm-from-earlier-tx", "probe transaction at position %d used %d gas, alone in a block on the same state it uses %d: it did not start with an empty access list", k, rc.GasUsed, want)
+		}
+	}
+	// what the executor does before the next transaction, on the very state object the block ran on:
+	// afterwards no address and no slot may be in the access list
+	if stl := ec.last; stl != nil {
+		stl.Prepare(common.BytesToHash([]byte{0xaa}), common.BytesToHash([]byte{0xbb}), len(txs))
+		for _, a := range append(cands, paddr, caddr) {
+			if stl.AddressInAccessList(a) {
+				return viol(len(txs), "access-list-leaked", "address-present-after-prepare", "after the block's last transaction (%s) and Prepare for a next one, address %s is still in the access list", p.CrossKinds[idxOf[executed[len(executed)-1].Hash]], a.GetHexString()[:12])
+			}
+		}
+	}
+	st.State(simrt.HashString("addr" + seq))
+	st.Nontrivial(simrt.Mix(p.Seed, simrt.HashString(seq)))
+	return nil
+}
+
 func c12Cross(p *c12Plan, ec *execChain, st *simrt.Stats, log *simrt.Log) *simrt.Violation {
+	if len(p.CrossKinds) > 0 {
+		return c12CrossAddr(p, ec, st, log)
+	}
 	viol := func(ev int, clause, where, f string, a ...interface{}) *simrt.Violation {
 		return simrt.Violationf("C12", clause, where, ev, f, a...)
 	}
@@ -549,6 +694,12 @@ func c12Cross(p *c12Plan, ec *execChain, st *simrt.Stats, log *simrt.Log) *simrt
 			return viol(k, "access-list-leaked", "gas-differs", "transaction at position %d used %d gas, the first one %d: identical work must cost the same when each starts with an empty access list", k, rc.GasUsed, gas0)
 		}
 		log.Add("cross tx %d pos %d gas=%d slot=%x", i, k, rc.GasUsed, got.Bytes()[31:])
+	}
+	if stl := ec.last; stl != nil {
+		stl.Prepare(common.BytesToHash([]byte{0xaa}), common.BytesToHash([]byte{0xbb}), len(txs))
+		if aok, sok := stl.SlotInAccessList(taddr, common.BigToHash(big.NewInt(7))); aok || sok {
+			return viol(len(txs), "access-list-leaked", "slot-present-after-prepare", "after the block's last transaction and Prepare for a next one, the contract (address %v, slot 7 %v) is still in the access list", aok, sok)
+		}
 	}
 	// transient storage last (so that the log and access-list clauses are judged in every plan)
 	for k := range receipts {
